@@ -28,6 +28,13 @@ type LoopSpec struct {
 	Isolate    bool // restart the path condition at the loop head (the invariant must restate what is needed)
 }
 
+// CallArgSpec: see the callarg clause.
+type CallArgSpec struct {
+	Callee  string
+	Ordinal int
+	Clause  *Clause
+}
+
 type CallHint struct {
 	Callee  string // e.g. reduce128
 	Ordinal int    // 1-based; 0 = all
@@ -98,6 +105,7 @@ type Contract struct {
 	Ensures   []*Clause
 	Loops     map[int]*LoopSpec
 	Calls     []*CallHint
+	CallArgs  []*CallArgSpec
 	Waivers   []*Waiver
 	Panics    *Clause // panics exactly when (nil = never)
 	HasPanics bool
@@ -158,7 +166,7 @@ type ContractFile struct {
 	Folds  []*Fold
 }
 
-var kwRe = regexp.MustCompile(`^(depth|ghost|induct|alias|fold|init|step|define|limit|apply|mention|cut|func|lemma|mode|returns|logical|requires|ensures|loop|call|waive|panics|props|trusted|assert|assume|split|nosafety|forall|hyp|holds|export|uses|assigns)\b`)
+var kwRe = regexp.MustCompile(`^(depth|ghost|induct|alias|fold|init|step|define|limit|apply|mention|cut|func|lemma|mode|returns|logical|requires|ensures|loop|callarg|call|waive|panics|props|trusted|assert|assume|split|nosafety|forall|hyp|holds|export|uses|assigns)\b`)
 
 func parseContractFile(path string) (*ContractFile, error) {
 	f, err := os.Open(path)
@@ -405,6 +413,19 @@ func parseContractFile(path string) (*ContractFile, error) {
 			case "unroll":
 				ls.Unroll, _ = strconv.Atoi(strings.TrimSpace(m[3]))
 			}
+		case "callarg":
+			// callarg callee#k: expr -- an obligation at the k-th call of callee; arg_<p> is the actual
+			// argument passed for the callee's parameter p, everything else is read in the caller's state
+			m := regexp.MustCompile(`^([A-Za-z0-9_.\[\]]+)#(\d+)\s*:\s*(.*)$`).FindStringSubmatch(rest)
+			if m == nil {
+				return nil, fail("bad callarg clause")
+			}
+			ord, _ := strconv.Atoi(m[2])
+			c, err := mkClause(m[3], it.line)
+			if err != nil {
+				return nil, err
+			}
+			cur.CallArgs = append(cur.CallArgs, &CallArgSpec{Callee: m[1], Ordinal: ord, Clause: c})
 		case "call":
 			// call callee#k: V = expr
 			m := regexp.MustCompile(`^([A-Za-z0-9_.\[\]]+)(#(\d+))?\s*:\s*([A-Za-z_][A-Za-z0-9_]*)\s*=\s*(.*)$`).FindStringSubmatch(rest)
